@@ -111,3 +111,42 @@ ELIMC = {
             'zero_or_one': 'result == 0 or result == 1',
         }, 'no_error': True},
 }
+
+
+# ---------------------------------------------------------------------------------------------------------------------------
+# ray_capsule (normal == NULL), over the reals, in the capsule's own frame: LP / LV are the ray origin and direction mapped by
+# ray_map (mat' * (pnt - pos), mat' * vec); PT(x, j) the point at ray parameter x.  The capsule is the cylinder of radius size[0]
+# between z = -size[1] and z = size[1] closed by two half spheres.
+CAP_DEFS = {
+    'DIF': 'lambda j: pnt[j] - pos[j]',
+    'LP': 'lambda k: mat[k]*DIF(0) + mat[3+k]*DIF(1) + mat[6+k]*DIF(2)',
+    'LV': 'lambda k: mat[k]*vec[0] + mat[3+k]*vec[1] + mat[6+k]*vec[2]',
+    'PT': 'lambda x, k: LP(k) + x*LV(k)',
+    'R2': 'size[0]*size[0]',
+    'ON_SIDE': 'lambda x: -size[1] <= PT(x, 2) and PT(x, 2) <= size[1] and PT(x, 0)*PT(x, 0) + PT(x, 1)*PT(x, 1) == R2',
+    'ON_TOP': 'lambda x: PT(x, 2) >= size[1] and PT(x, 0)*PT(x, 0) + PT(x, 1)*PT(x, 1) + (PT(x, 2) - size[1])*(PT(x, 2) - size[1]) == R2',
+    'ON_BOTTOM': 'lambda x: PT(x, 2) <= -size[1] and PT(x, 0)*PT(x, 0) + PT(x, 1)*PT(x, 1) + (PT(x, 2) + size[1])*(PT(x, 2) + size[1]) == R2',
+    'ON_SURFACE': 'lambda x: ON_SIDE(x) or ON_TOP(x) or ON_BOTTOM(x)',
+}
+QUAD_ROOTS = dict(QUAD['ray_quad'])
+QUAD_ROOTS['ensures'] = dict(QUAD['ray_quad']['ensures'], **{
+    'both_roots_stored': 'implies(a >= dbl(1e-15) and b*b - a*c >= 0, a*x[0]*x[0] + 2*b*x[0] + c == 0 and a*x[1]*x[1] + 2*b*x[1] + c == 0)',
+    'no_real_roots_stores_minus_one': 'implies(a < dbl(1e-15) or b*b - a*c < 0, x[0] == -1 and x[1] == -1 and result == -1)',
+    'result_is_one_of_the_roots': 'implies(result >= 0, result == x[0] or result == x[1])',
+    'every_real_root_is_stored': 'implies(a >= dbl(1e-15), forall_real(lambda y: implies(a*y*y + 2*b*y + c == 0, b*b - a*c >= 0 and (y == x[0] or y == x[1]))))',
+})
+QUAD_ROOTS['assigns'] = ['x[*]']
+CAPSULE = {
+    '__defs__': CAP_DEFS, '__no_merge__': True,
+    'ray_quad': QUAD_ROOTS,
+    'ray_sphere': QUAD['ray_sphere'],
+    'ray_map': {'inline': True}, 'mju_abs': {'inline': True},
+    'ray_capsule': {
+        'params': {'pos': {'n': 3}, 'mat': {'n': 9}, 'size': {'n': 3}, 'pnt': {'n': 3}, 'vec': {'n': 3}, 'normal': {'null': True}},
+        'requires': {'no_normal_requested': 'normal == NULL', 'sizes': 'size[0] >= 0 and size[1] >= 0'},
+        'assigns': [],
+        'ensures': {
+            'minus_one_or_nonneg': 'result == -1 or result >= 0',
+            'hit_point_lies_on_the_capsule_surface': 'implies(result >= 0, ON_SURFACE(result))',
+        }, 'no_error': True},
+}
